@@ -862,6 +862,14 @@ func runR20_3(c *Ctx, r *R) {
 		if o := calleeObj(call); o != nil && o.Name() == "addClosed" && len(call.Common().Args) == 2 {
 			if mc, ok := call.Common().Args[1].(*ssa.MakeClosure); ok {
 				wrapper, _ = mc.Fn.(*ssa.Function)
+				// a method value (l.call): the method behind the bound-method wrapper
+				if wrapper != nil && wrapper.Synthetic != "" {
+					if o, ok := wrapper.Object().(*types.Func); ok {
+						if m := c.Prog.FuncValue(o); m != nil && m.Blocks != nil {
+							wrapper = m
+						}
+					}
+				}
 				for _, b := range mc.Bindings {
 					if typeIs(deref(b.Type()), "sync/atomic", "Bool") || strings.Contains(b.Type().String(), "atomic.Bool") {
 						flag = b
@@ -882,10 +890,8 @@ func runR20_3(c *Ctx, r *R) {
 			}
 			// dynamic call of a captured func value
 			for _, cd := range pathConds(call.Block()) {
-				if cas, ok := cd.V.(*ssa.Call); ok && cd.Truth {
-					if o := calleeObj(cas); o != nil && o.Name() == "CompareAndSwap" {
-						good = true
-					}
+				if cas, ok := cd.V.(*ssa.Call); ok && cd.Truth && isCASResult(cas, 0) {
+					good = true
 				}
 			}
 		}
@@ -915,6 +921,9 @@ func runR20_3(c *Ctx, r *R) {
 			}
 			if cas, ok := cd.V.(*ssa.Call); ok && cd.Truth {
 				if o := calleeObj(cas); o != nil && o.Name() == "CompareAndSwap" && len(cas.Call.Args) > 0 && (flag == nil || singleStoreValue(cas.Call.Args[0]) == singleStoreValue(flag) || cas.Call.Args[0] == flag || loadsFrom(cas.Call.Args[0], flag)) {
+					casWon = true
+				} else if o != nil && o.Name() != "CompareAndSwap" && isCASResult(cas, 0) {
+					// l.disarm(): a method of the once-wrapper object that returns the result of the CAS on its flag
 					casWon = true
 				}
 			}
@@ -991,9 +1000,12 @@ func runR20_5(c *Ctx, r *R) {
 		for _, ret := range effectiveReturns(f) {
 			g := ret.Parent()
 			if flows[g] == nil {
-				_, flows[g] = mustCalls(g)
+				_, flows[g] = mustCallsGuarded(g, rt.guard)
 			}
 			fa := flows[g].At(ret)
+			if fa != nil && fa["BOT"] {
+				continue
+			}
 			if fa == nil {
 				continue
 			}
@@ -1199,4 +1211,28 @@ func deferredFunc(d *ssa.Defer) *ssa.Function {
 		return cf
 	}
 	return nil
+}
+
+// isCASResult: the call is a CompareAndSwap, or a call of a module helper every return of which hands back the
+// result of a CompareAndSwap (l.disarm()).
+func isCASResult(call *ssa.Call, depth int) bool {
+	if o := calleeObj(call); o != nil && o.Name() == "CompareAndSwap" {
+		return true
+	}
+	h := call.Call.StaticCallee()
+	if h == nil || h.Blocks == nil || depth > 1 || h.Signature.Results().Len() != 1 {
+		return false
+	}
+	n := 0
+	for _, ret := range returnsOf(h) {
+		if len(ret.Results) != 1 {
+			return false
+		}
+		c2, ok := unspill(ret.Results[0]).(*ssa.Call)
+		if !ok || !isCASResult(c2, depth+1) {
+			return false
+		}
+		n++
+	}
+	return n > 0
 }
